@@ -274,7 +274,7 @@ class Lab:
         table = {
             'W_metric_m1': w_metric('m1'), 'W_metric_m2': w_metric('m2'), 'W_comp_vmd': w_comp('vmd'),
             'W_alert_al': w_alert('al'), 'W_op_op': w_op('op'),
-            'W_descr_m1': w_descr('m1'), 'W_descr_ch': w_descr('ch'), 'W_ctx': w_ctx(),
+            'W_descr_m1': w_descr('m1'), 'W_descr_pc': w_descr('pc'), 'W_descr_ch': w_descr('ch'), 'W_ctx': w_ctx(),
             'R_state_m1': r_state(['m1'], 'GetMdState[m1]'), 'R_state_all': r_state(None, 'GetMdState[]'),
             'R_mdib': r_mdib(), 'R_descr': r_descr(), 'R_ctx_all': r_ctx(None), 'R_ctx_pc': r_ctx(['pc']),
             'O_unknown_a': o_unknown('a'), 'O_unknown_b': o_unknown('b'), 'O_unknown_c': o_unknown('c'),
